@@ -1,3 +1,7 @@
-import Flowdyn.Model.Kernels.Scalar
-namespace Flowdyn.C02
-end Flowdyn.C02
+/-
+C02 — numerical fluxes are consistent, mirror-symmetric and upwind.
+Part A: convection, Burgers, shallow water, Euler centered / centered-massflow / HLLE.
+Part B: HLLC and the 2D Euler fluxes (both face directions, transposition, reduction to 1D).
+-/
+import Flowdyn.Props.C02a
+import Flowdyn.Props.C02b
